@@ -62,13 +62,16 @@ class RunOpaque:
 class ParseFromFile:
     """parse_from_file(path, encoding, parser_settings, **kwargs) == DDLParser(<decoded file content>, **parser_settings).run(file_path=path, **kwargs)"""
     fn = "ddl_parser.parse_from_file"
-    props = ["C19", "C06", "C16", "C12"]
+    # an entry point of every property (the file API and the CLI go through it); C14 / C15: the caller's settings dict is read, never written
+    props = ["C%02d" % i for i in range(1, 21)]
     abstract_callees = True
-    cases = {"with settings": dict(settings=True), "without settings": dict(settings=False)}
+    cases = {"with settings": dict(settings=True), "without settings": dict(settings=False), "with debug settings": dict(settings="debug")}
 
     def build(G, case):
         settings = None
-        if case["settings"]:
+        if case["settings"] == "debug":
+            settings = {"debug": G.bool("debug"), "silent": G.bool("silent")}
+        elif case["settings"]:
             settings = {"silent": G.bool("silent"), "normalize_names": G.bool("normalize_names")}
         return dict(args=[G.str("path", None, "a.b/my.table.sql")],
                     kwargs=dict(encoding=G.str("encoding", None, "utf-16"), parser_settings=settings, output_mode=G.str("mode", None, "hql"), group_by_type=G.bool("group"),
@@ -76,7 +79,9 @@ class ParseFromFile:
 
     def spec(case, file_path, encoding="utf-8", parser_settings=None, output_mode="sql", group_by_type=False, dump=False, dump_path="schemas"):
         content = opaque("file-content", file_path, "r", encoding)
-        if case["settings"]:
+        if case["settings"] == "debug":
+            built = opaque("DDLParser", content, parser_settings["silent"], parser_settings["debug"], False, None, 20)
+        elif case["settings"]:
             built = opaque("DDLParser", content, parser_settings["silent"], False, parser_settings["normalize_names"], None, 20)
         else:
             built = opaque("DDLParser", content, True, False, False, None, 20)
